@@ -41,7 +41,7 @@ IMPORTS = {
     "from_fxh_paren_comment": ("from fxh import (\n    Other,  # the odd one out\n    DD,\n)", "DD.__name__"),
     "from_fxh_Base_then_star": ("from fxh import Base\nfrom fxh import *", "Base.__name__"),
 }
-ANNOS = [None, None, None, "int", "str", "'Base2'", "float", None, None,
+ANNOS = [None, None, None, "int", "str", "'Base2'", "float", None, "TV",
          # a long-hand annotation: overwriting it with a short traced type makes the file SHORTER
          "'Dict[str, List[Tuple[int, Optional[Dict[str, List[Tuple[int, Optional[Dict[str, List[Tuple[int, Optional[str]]]]]]]]]]]]'"]
 STMTS = ["CONST = 1  # c", "X, Y = 1, 2", "if len('ab') == 2:\n    FLAG = True\nelse:\n    FLAG = False", "try:\n    import json as _j\nexcept ImportError:\n    _j = None",
@@ -245,6 +245,9 @@ def render(spec, pkg=False):
         if not spec["tc_try"] and "from_typing_tc" not in spec["imports"]:
             L.append("from typing import TYPE_CHECKING")
         L += ["if TYPE_CHECKING:", "    " + spec["tc_block"]]
+    if '"TV"' in __import__("json").dumps(spec["items"]):
+        # a type variable bound through an attribute of the typing module (not by a bare `TypeVar(...)` call)
+        L += ["", "TV = __import__('typing').TypeVar('TV')"]
     L += ["", "class Base2:", "    pass", "", "def deco(f):", "    return f", "", "def deco2(f):", "    f.marked = True", "    return f", ""]
     late = spec["import_after_code"]
     for kind, it in spec["items"]:
